@@ -669,6 +669,8 @@ class Exec:
                 re.match(r'(core::panicking::)?assert_failed(::<.*>)?$', callee) or callee.endswith('unwrap_failed') or callee.endswith('expect_failed'):
             return _panic_model(callee)
         tm = _parse_callee(callee)
+        if tm and tm[0] and simple_name(tm[0]) == 'Drop':
+            return models.lookup(callee)
         if tm:
             tr, ty, method, tyfull = tm
             tys = simple_name(ty)
@@ -772,8 +774,10 @@ def _dynamic_dispatch(ex0, trait, method, callee, infos=None):
     def call(ex, args):
         recv = deref(args[0]) if args else None
         if isinstance(recv, BoxV) and isinstance(deref(recv.f[0]), Closure): recv = deref(recv.f[0])
+        if trait in ('Fn', 'FnMut', 'FnOnce'):
+            r2 = deref(recv.f[0]) if isinstance(recv, BoxV) else recv
+            if isinstance(r2, (Closure, FnItem)) or callable(r2): return ex.call_value(r2, list(args[1].f))
         if isinstance(recv, Closure):
-            if trait in ('Fn', 'FnMut', 'FnOnce'): return ex.call_value(recv, list(args[1].f))
             for g in ('F', 'T'):
                 cands = ex.prog.method_info(trait, g, method)
                 if len(cands) == 1: return ex.call_mir(cands[0][0], [Ref([recv], 0)] + list(args[1:]))
